@@ -57,13 +57,40 @@ class AllTrue:
         return bool(self.v)
 
 
+class TagArr(tuple):
+    """a tagged array (one segment's values or weights): comparisons give a mask, masking gives a differently tagged array,
+    so an interval statistic fed a filtered subset of the segment's bins is visible as a wrong operand"""
+
+    def abs_compare(self, op, other, reflected=False):
+        return TagMask(self)
+
+    def abs_getitem(self, it, k):
+        if isinstance(k, TagMask):
+            return TagArr(tuple(self) + ("SUBSET-BY", tuple(k.of)))
+        raise Undecided(f"subscript {k!r} of a tagged array")
+
+
+class TagMask:
+    def __init__(self, of):
+        self.of = of
+
+    def any(self):
+        return True
+
+    def all(self):
+        return False
+
+    def sum(self):
+        raise Undecided("size of a tagged mask")
+
+
 class Bins:
     """the log2 Series of one segment's bins"""
 
     def __init__(self, seg, vals, wts):
         self.seg, self.vals, self.wts = seg, list(vals), list(wts)
         self.index = Idx(seg)
-        self.values = ("VALUES", seg)
+        self.values = TagArr(("VALUES", seg))
 
     def abs_len(self):
         return len(self.vals)
@@ -77,7 +104,7 @@ class Bins:
 class Weights:
     def abs_getitem(self, it, k):
         if isinstance(k, Idx):
-            w = Row({"index": k, "values": ("WEIGHTS", k.key)})
+            w = Row({"index": k, "values": TagArr(("WEIGHTS", k.key))})
             return w
         raise Raised("IndexMisalignment", f"the weight column is indexed by {k!r} instead of the bins' own index labels: a segment's bins get other bins' weights")
 
@@ -439,6 +466,7 @@ def run(chk):
 _S = "cnvlib/segmetrics.py"
 _B = "cnvlib/bintest.py"
 MUTANTS = [
+    dict(name="seeded C17d: interval statistics drop zero-weight bins", file="cnvlib/segmetrics.py", old="            out_vals_lo[i], out_vals_hi[i] = func(ser.values, wt.values)\n", new="            informative = wt.values > 0\n            if informative.any():\n                out_vals_lo[i], out_vals_hi[i] = func(ser.values[informative], wt.values[informative])\n"),
     dict(name="spread statistic fed raw log2", file=_S, old="        deviations = (bl - sl for bl, sl in zip(bins_log2s, segarr[\"log2\"]))", new="        deviations = (bl for bl, sl in zip(bins_log2s, segarr[\"log2\"]))"),
     dict(name="outer -> inner", file=_S, old='    bins_log2s = list(cnarr.iter_ranges_of(segarr, "log2", "outer", True))', new='    bins_log2s = list(cnarr.iter_ranges_of(segarr, "log2", "inner", True))'),
     dict(name="keep_empty False", file=_S, old='    bins_log2s = list(cnarr.iter_ranges_of(segarr, "log2", "outer", True))', new='    bins_log2s = list(cnarr.iter_ranges_of(segarr, "log2", "outer", False))'),
